@@ -321,8 +321,37 @@ func NilTest(cond ssa.Value) (x ssa.Value, trueIsNil bool, ok bool) {
 
 // Unwrap strips interface conversions so that "the same value" is recognised
 // across ChangeInterface/MakeInterface/ChangeType.
+// ParamSubst maps parameters of a helper function that is being analysed "as if inlined" at one call site to
+// the arguments of that call. It is set by the engine for the duration of such an analysis only; Unwrap and
+// DependsOn see through it, so role-based matchers keep working inside extracted helpers.
+var ParamSubst = map[*ssa.Parameter]ssa.Value{}
+
+// WithParamSubst runs fn with the parameters of callee bound to the arguments of call.
+func WithParamSubst(call *ssa.Call, fn func()) {
+	h := call.Call.StaticCallee()
+	if h == nil {
+		fn()
+		return
+	}
+	var set []*ssa.Parameter
+	for i, p := range h.Params {
+		if i < len(call.Call.Args) {
+			if _, dup := ParamSubst[p]; !dup {
+				ParamSubst[p] = call.Call.Args[i]
+				set = append(set, p)
+			}
+		}
+	}
+	defer func() {
+		for _, p := range set {
+			delete(ParamSubst, p)
+		}
+	}()
+	fn()
+}
+
 func Unwrap(v ssa.Value) ssa.Value {
-	for {
+	for n := 0; n < 64; n++ {
 		switch x := v.(type) {
 		case *ssa.ChangeInterface:
 			v = x.X
@@ -330,10 +359,17 @@ func Unwrap(v ssa.Value) ssa.Value {
 			v = x.X
 		case *ssa.Convert:
 			v = x.X
+		case *ssa.Parameter:
+			if a, ok := ParamSubst[x]; ok {
+				v = a
+				continue
+			}
+			return v
 		default:
 			return v
 		}
 	}
+	return v
 }
 
 // SameValue reports whether a and b denote the same SSA value, allowing for
@@ -558,6 +594,9 @@ func (ec *ExitClassifier) FailExitsIn(r *Reach, cut *Cut) []*ssa.Return {
 	}
 	return out
 }
+
+// IsBoolVerdict reports whether the classified result is a bool.
+func (ec *ExitClassifier) IsBoolVerdict() bool { return ec.isBool() }
 
 func (ec *ExitClassifier) isBool() bool {
 	res := ec.Fn.Signature.Results()
